@@ -266,6 +266,15 @@ func (t *txmonitor) check(newBlock uint64, lastNonce uint64) {
 					t.notify(nonce, tHash, Result{nil, ErrTxnCancelled})
 					continue
 				}
+				// Over a real JSON-RPC transport a node answers "null" for a
+				// transaction it has no receipt for; inside a batch that does not
+				// decode into a receipt and shows up as a decoding error, never as
+				// NotFound. Ask again through the typed call, which maps null to
+				// NotFound.
+				if _, rerr := t.client.TransactionReceipt(t.baseCtx, tHash); errors.Is(rerr, ethereum.NotFound) {
+					t.notify(nonce, tHash, Result{nil, ErrTxnCancelled})
+					continue
+				}
 				var tt *TransactionTrace
 				if dbg, ok := t.client.(Debugger); ok {
 					if tt, err = dbg.TraceTransaction(t.baseCtx, tHash); err != nil {
